@@ -27,7 +27,8 @@ RULE = (
     "case = (driver out of six, seed, n<=14, segments summing to n incl. zero-length, entry point per segment, observer intervals from {1,2,3,5,-1,-3,-n,-(n+2)}, default logger / trajectory present or not, "
     "consecutive irun generators created before either is exhausted); "
     "non-trivial = at least two segments using different entry points and an observer with |interval|>1; "
-    "distinct = (driver, segment lengths, entry points, intervals)."
+    "distinct = (driver, segment lengths, entry points, intervals). abandon: (driver, run(first); a loop over srun/irun(budget) left after j yields; then run/irun(m)); "
+    "oracle: the last call advances the step counter by exactly m and an every-step observer is called once per step of it; non-trivial = every executed case."
 )
 ASSUMPTIONS = [
     "calculators are pure functions with a fixed summation order so that the split and unsplit runs can be compared bitwise",
@@ -261,15 +262,63 @@ def run_case(case):
 KNOWN = {}
 
 
+# ------------------------------------------------------------------ a loop over srun/irun that is left early
+@st.composite
+def abandon_case(draw):
+    base = draw(case_st())
+    return dict(base, intervals=[1], retune=None, deferred_irun=False, log_prefix="",
+                loop_budget=draw(st.integers(2, 12)), break_after=draw(st.integers(0, 5)), then=draw(st.integers(0, 4)),
+                loop_entry=draw(st.sampled_from(["srun", "irun"])), then_entry=draw(st.sampled_from(["run", "irun"])), first=draw(st.integers(0, 3)))
+
+
+def run_abandon(case):
+    """`for ... in mc.srun(budget): ... break` leaves the loop early; the next call still performs exactly what it is
+    asked for (the leftover budget of the abandoned loop is nobody's)."""
+    labels = ["abandon", "driver:" + case["driver"], "loop:" + case["loop_entry"]]
+    if case["loop_entry"] == "srun" and "ForceBias" in case["driver"]:
+        case = dict(case, loop_entry="irun")
+    out = {"labels": labels, "nontrivial": True, "violation": None,
+           "key": f"{case['driver']}|{case['loop_budget']}|{case['break_after']}|{case['then']}|{case['loop_entry']}|{case['then_entry']}|{case['first']}"}
+    try:
+        with warnings.catch_warnings():
+            warnings.simplefilter("ignore")
+            mc, atoms, log, traj, recs = build(case)
+            execute(mc, "run", case["first"])
+            gen = getattr(mc, case["loop_entry"])(case["loop_budget"])
+            for i, step in enumerate(gen):
+                if case["loop_entry"] == "irun" and step is not None and hasattr(step, "__iter__") and not isinstance(step, np.ndarray):
+                    for _ in step:
+                        pass
+                if i >= case["break_after"]:
+                    break
+            del gen
+            c0 = mc.step_count
+            calls0 = len(recs[0].calls)
+            execute(mc, case["then_entry"], case["then"])
+            c1 = mc.step_count
+            new_calls = recs[0].calls[calls0:]
+    except Exception as exc:
+        out["violation"] = {"kind": f"abandon:raises:{type(exc).__name__}", "detail": repr(exc)[:300]}
+        return out
+    where = f"{case['driver']}: run({case['first']}); loop over {case['loop_entry']}({case['loop_budget']}) left after {case['break_after'] + 1} yields at step {c0}; then {case['then_entry']}({case['then']})"
+    if c1 != c0 + case["then"]:
+        out["violation"] = {"kind": "abandon:step-count", "detail": f"{where} ended at step {c1}, expected {c0 + case['then']}"}
+    elif [c for c in new_calls if c > c0] != list(range(c0 + 1, c0 + case["then"] + 1)):
+        out["violation"] = {"kind": "abandon:observer-calls", "detail": f"{where}: an every-step observer was called at steps {new_calls}"}
+    return out
+
+
 def plan(tier):
     if tier == "quick":
-        return [{"part": "split", "shards": 16, "budget": {"n_examples": 450}}]
-    return [{"part": "split", "shards": 16, "budget": {"n_examples": 12000}}]
+        return [{"part": "split", "shards": 14, "budget": {"n_examples": 500}}, {"part": "abandon", "shards": 2, "budget": {"n_examples": 300}}]
+    return [{"part": "split", "shards": 14, "budget": {"n_examples": 13000}}, {"part": "abandon", "shards": 2, "budget": {"n_examples": 6000}}]
 
 
 def run_part(part, seed, shard, nshards, budget):
+    if part == "abandon":
+        return hyp.search(abandon_case(), run_abandon, budget["n_examples"], seed, part)
     return hyp.search(case_st(), run_case, budget["n_examples"], seed, part)
 
 
 def replay(part, case):
-    return run_case(case)
+    return run_abandon(case) if part == "abandon" else run_case(case)
